@@ -31,6 +31,8 @@ type StandinResult struct {
 	Bound       string   `json:"bound"`
 	WallS       float64  `json:"wall_s"`
 	Lines       []string `json:"violation_lines,omitempty"`
+	Known       map[string]int `json:"known_finding_hits,omitempty"`
+	KnownLines  []string `json:"known_finding_samples,omitempty"`
 	Error       string   `json:"error,omitempty"`
 	Label       string   `json:"label"`
 }
@@ -69,6 +71,18 @@ func runStandin(sc StandinCfg, tier string) StandinResult {
 	for _, ln := range strings.Split(out, "\n") {
 		if strings.HasPrefix(ln, "HV-VIOLATION") {
 			res.Lines = append(res.Lines, ln)
+		}
+		if strings.HasPrefix(ln, "HV-KNOWN ") {
+			res.KnownLines = append(res.KnownLines, ln)
+		}
+		if strings.HasPrefix(ln, "HV-KNOWN-COUNT ") {
+			var key string
+			var n int
+			fmt.Sscanf(ln, "HV-KNOWN-COUNT key=%s count=%d", &key, &n)
+			if res.Known == nil {
+				res.Known = map[string]int{}
+			}
+			res.Known[key] = n
 		}
 		if m := boundedRe.FindStringSubmatch(ln); m != nil {
 			fmt.Sscanf(m[1], "%d", &res.Evaluations)
